@@ -15,7 +15,7 @@ from ..core import Machine, rs
 
 from menpo.image import Image
 from menpo.shape import PointCloud, TriMesh
-from menpo.transform import (Affine, NonUniformScale, Rotation, Scale, Translation, UniformScale,
+from menpo.transform import (Affine, NonUniformScale, Rotation, Scale, TransformChain, Translation, UniformScale,
                              image_coords_to_tcoords, rotate_ccw_about_centre, scale_about_centre,
                              shear_about_centre, tcoords_to_image_coords, transform_about_centre)
 from .. import walker
@@ -78,7 +78,7 @@ class RotationRng(Machine):
                        "negative_angle", "beyond_one_turn", "radians", "tcoords", "returned_transform_mutated",
                        "about_centre_scale", "about_centre_rotate", "about_centre_shear", "about_centre_transform",
                        "scale_factory", "scale_factory_zero_refused", "passed_array_mutated",
-                       "radians_beyond_360", "quat_from_existing_rotation", "quat_from_integer_matrix_rotation", "about_centre_per_axis_scale", "scale_factory_opposite_signs", "centre_with_zero_coordinate",
+                       "radians_beyond_360", "quat_from_existing_rotation", "quat_from_integer_matrix_rotation", "about_centre_with_a_chain", "about_centre_chain_used_again", "about_centre_per_axis_scale", "scale_factory_opposite_signs", "centre_with_zero_coordinate",
                        "scale_factory_scalar_zero")
 
     @classmethod
@@ -374,13 +374,38 @@ class RotationRng(Machine):
             name = "shear"
         else:
             # a linear map (no translation of its own), so that "keeps the centre fixed" applies as stated
-            A = Affine(np.vstack([np.hstack([g.uniform(-1, 1, size=(d, d)) + 2 * np.eye(d), np.zeros((d, 1))]),
-                                  np.eye(d + 1)[d:]]))
-            t = transform_about_centre(obj, A)
-            Ah = np.array(A.h_matrix, dtype=float)
-            L, name = Ah[:d, :d], "transform"
-            # a general transform with its own translation moves the centre by that translation
-            off = Ah[:d, d]
+            def lin(gg):
+                return Affine(np.vstack([np.hstack([gg.uniform(-1, 1, size=(d, d)) + 2 * np.eye(d), np.zeros((d, 1))]),
+                                         np.eye(d + 1)[d:]]))
+            if op["frac"] % 3 == 1:
+                # the documented fallback for anything that is not Homogeneous: here a chain of two linear maps,
+                # which the caller keeps and uses again (for other objects, and as the plain transform it is)
+                chains = self.__dict__.setdefault("_kept_chains", {})
+                if d not in chains:
+                    gg = rs(op["data"] ^ 0x9E37)
+                    a1, a2 = lin(gg), lin(gg)
+                    chains[d] = (TransformChain([a1, a2]),
+                                 np.array(a2.h_matrix, dtype=float)[:d, :d] @ np.array(a1.h_matrix, dtype=float)[:d, :d])
+                else:
+                    ctx.probe("about_centre_chain_used_again")
+                chain, L = chains[d]
+                probe_pts = g.uniform(-5, 5, size=(3, d))
+                plain_before = np.asarray(chain.apply(probe_pts.copy()))
+                t = transform_about_centre(obj, chain)
+                plain_after = np.asarray(chain.apply(probe_pts.copy()))
+                ctx.require(len(chain.transforms) == 2 and plain_after.shape == plain_before.shape and
+                            float(np.abs(plain_after - plain_before).max()) < 1e-9, "about_centre", "transform_argument_modified_chain",
+                            lambda: "the chain passed to transform_about_centre now has %d members and maps %r to %r (before: %r)"
+                                    % (len(chain.transforms), probe_pts[0].tolist(), plain_after[0].tolist(), plain_before[0].tolist()))
+                ctx.probe("about_centre_with_a_chain")
+                name, off = "transform", np.zeros(d)
+            else:
+                A = lin(g)
+                t = transform_about_centre(obj, A)
+                Ah = np.array(A.h_matrix, dtype=float)
+                L, name = Ah[:d, :d], "transform"
+                # a general transform with its own translation moves the centre by that translation
+                off = Ah[:d, d]
         ctx.probe("about_centre_" + name)
         v = g.uniform(-5, 5, size=(4, d))
         got_c = np.asarray(t.apply(c[None, :].copy()))[0]
